@@ -9,9 +9,10 @@
              RESULT value
    No Obj.magic; byte/N/nat conversions go through the extracted b2n/n2b. *)
 
+type ostring = string
 open Model
 
-type sexp = X of string (* raw bytes *) | Nn of string (* decimal *) | Sy of string | L of sexp list
+type sexp = X of ostring (* raw bytes *) | Nn of ostring (* decimal *) | Sy of ostring | L of sexp list
 
 (* ---------- conversions ---------- *)
 
@@ -28,12 +29,12 @@ let int_of_n (x : n) : int = match x with N0 -> 0 | Npos p -> int_of_pos p
 let byte_tab : byte array = Array.init 256 (fun i -> n2b (n_of_int i))
 let int_of_byte (b : byte) : int = int_of_n (b2n b)
 
-let bytes_of_string (s : string) : byte list =
+let bytes_of_string (s : ostring) : byte list =
   let r = ref [] in
   for i = String.length s - 1 downto 0 do r := byte_tab.(Char.code s.[i]) :: !r done;
   !r
 
-let string_of_bytes (l : byte list) : string =
+let string_of_bytes (l : byte list) : ostring =
   let b = Buffer.create 64 in
   List.iter (fun x -> Buffer.add_char b (Char.chr (int_of_byte x))) l;
   Buffer.contents b
@@ -42,13 +43,13 @@ let rec nat_of_int (i : int) : nat = if i <= 0 then O else S (nat_of_int (i - 1)
 let int_of_nat (x : nat) : int = let rec go acc = function O -> acc | S y -> go (acc + 1) y in go 0 x
 
 (* decimal strings <-> N / Z (arbitrary precision, via repeated *10 in N) *)
-let n_of_dec (s : string) : n =
+let n_of_dec (s : ostring) : n =
   let ten = n_of_int 10 in
   let acc = ref N0 in
   String.iter (fun c -> acc := N.add (N.mul !acc ten) (n_of_int (Char.code c - 48))) s;
   !acc
 
-let dec_of_n (x : n) : string =
+let dec_of_n (x : n) : ostring =
   if x = N0 then "0" else begin
     let ten = n_of_int 10 in
     let b = Buffer.create 20 in
@@ -66,7 +67,7 @@ let dec_of_n (x : n) : string =
 (* ---------- hex ---------- *)
 
 let hexd = "0123456789abcdef"
-let to_hex (s : string) : string =
+let to_hex (s : ostring) : ostring =
   let b = Bytes.create (2 * String.length s) in
   String.iteri (fun i c ->
       Bytes.set b (2*i) hexd.[Char.code c lsr 4];
@@ -79,7 +80,7 @@ let hv c = match c with
   | 'A'..'F' -> Char.code c - 55
   | _ -> failwith "bad hex"
 
-let of_hex (h : string) : string =
+let of_hex (h : ostring) : ostring =
   String.init (String.length h / 2) (fun i -> Char.chr (16 * hv h.[2*i] + hv h.[2*i+1]))
 
 (* ---------- S-expressions ---------- *)
@@ -96,7 +97,7 @@ let rec print_sexp (b : Buffer.t) (v : sexp) : unit =
 
 let sexp_to_string v = let b = Buffer.create 256 in print_sexp b v; Buffer.contents b
 
-let parse_sexp (s : string) : sexp =
+let parse_sexp (s : ostring) : sexp =
   let n = String.length s in
   let pos = ref 0 in
   let skip () = while !pos < n && (s.[!pos] = ' ' || s.[!pos] = '\r') do incr pos done in
@@ -141,11 +142,33 @@ let of_option f = function None -> Sy "none" | Some v -> L [Sy "some"; f v]
 
 (* ---------- primitive oracle over stdin/stdout ---------- *)
 
-let call (name : string) (args : sexp list) : sexp =
+let call (name : ostring) (args : sexp list) : sexp =
   print_string "CALL ";
   print_string (sexp_to_string (L (Sy name :: args)));
   print_newline ();
   parse_sexp (input_line stdin)
+
+(* ---------- results ---------- *)
+
+let rec coq_string_to_list (s : Model.string) : char list =
+  match s with
+  | EmptyString -> []
+  | String (Ascii (b0, b1, b2, b3, b4, b5, b6, b7), r) ->
+      let bit b k = if b then 1 lsl k else 0 in
+      Char.chr (bit b0 0 + bit b1 1 + bit b2 2 + bit b3 3 + bit b4 4 + bit b5 5 + bit b6 6 + bit b7 7)
+      :: coq_string_to_list r
+let string_of_chars (s : Model.string) : ostring =
+  let l = coq_string_to_list s in String.init (List.length l) (List.nth l)
+
+let err_name = function
+  | Base64DecodeError -> "Base64DecodeError" | InvalidKey -> "InvalidKey" | InvalidToken -> "InvalidToken"
+  | CryptoError -> "CryptoError" | ClaimsError -> "ClaimsError" | PayloadError -> "PayloadError"
+
+let of_result (f : 'a -> sexp) (r : 'a result) : sexp =
+  match r with
+  | Ok v -> L [Sy "ok"; f v]
+  | Err e -> L [Sy "err"; Sy (err_name e)]
+  | Panic site -> L [Sy "panic"; X (string_of_chars site)]
 
 (* ---------- operations ---------- *)
 
@@ -167,7 +190,43 @@ let op_unpae args =
       of_option (fun (ps, rest) -> L [ L (List.map of_bytes ps); of_bytes rest ]) (unpae (as_bytes s))
   | _ -> failwith "unpae: arity"
 
-let ops : (string * (sexp list -> sexp)) list ref = ref [
+let op_b64enc = function [b] -> of_bytes (encode (as_bytes b)) | _ -> failwith "b64enc: arity"
+let op_b64dec = function [s] -> of_result of_bytes (decode_vec (as_bytes s)) | _ -> failwith "b64dec: arity"
+let op_b64dec_fixed = function
+  | [cap; s] -> of_result of_bytes (decode_fixed (nat_of_int (as_int cap)) (as_bytes s))
+  | _ -> failwith "b64dec_fixed: arity"
+let op_print_paserk = function
+  | [v; k; d] -> of_bytes (print_paserk (as_bytes v) (as_bytes k) (as_bytes d))
+  | _ -> failwith "print_paserk: arity"
+let op_parse_paserk = function
+  | [v; k; s] -> of_result of_bytes (parse_paserk (as_bytes v) (as_bytes k) (as_bytes s))
+  | _ -> failwith "parse_paserk: arity"
+let op_parse_keyid = function
+  | [v; k; s] -> of_result of_bytes (parse_keyid (as_bytes v) (as_bytes k) (as_bytes s))
+  | _ -> failwith "parse_keyid: arity"
+let of_token t = L [of_bytes t.t_payload; of_bytes t.t_footer]
+let op_print_token = function
+  | [h; sfx; p; pl; f] ->
+      of_bytes (print_token (as_bytes h) (as_bytes sfx) (as_bytes p) { t_payload = as_bytes pl; t_footer = as_bytes f })
+  | _ -> failwith "print_token: arity"
+(* footer type: svec | sunit *)
+let op_parse_token = function
+  | [ft; h; sfx; p; s] ->
+      (match as_sym ft with
+       | "vec" -> of_result (fun (t, _) -> of_token t) (parse_token fdec_vec (as_bytes h) (as_bytes sfx) (as_bytes p) (as_bytes s))
+       | "unit" -> of_result (fun (t, _) -> of_token t) (parse_token fdec_unit (as_bytes h) (as_bytes sfx) (as_bytes p) (as_bytes s))
+       | _ -> failwith "parse_token: footer type")
+  | _ -> failwith "parse_token: arity"
+
+let ops : (ostring * (sexp list -> sexp)) list ref = ref [
+  "b64enc", op_b64enc;
+  "b64dec", op_b64dec;
+  "b64dec_fixed", op_b64dec_fixed;
+  "print_paserk", op_print_paserk;
+  "parse_paserk", op_parse_paserk;
+  "parse_keyid", op_parse_keyid;
+  "print_token", op_print_token;
+  "parse_token", op_parse_token;
   "pae", op_pae;
   "pae_spec", op_pae_spec;
   "unpae", op_unpae;
